@@ -77,22 +77,25 @@ match scrut_3 with
     | [a_13; a_14] => let v_15 := (ext "Close::try_from" [(VN 0); frame]) in
 let rest_16 := fun _ : unit =>
 let tried_17 := (ext "OpenOk::try_from" [(VN 0); frame]) in
+let after_20 := fun okval_18 : val =>
+let v_21 := okval_18 in
+let self_22 := (VC "HandshakeState::Done" [a_13; a_14]) in
+(self_22, inner, (VC "Ok" [(VC "()" [])])) in
 match tried_17 with
 | VC "Err" [err_19] => (self, inner, (VC "Err" [err_19]))
-| VC "Ok" [okval_18] =>
-let v_20 := okval_18 in
-let self_21 := (VC "HandshakeState::Done" [a_13; a_14]) in
-(self_21, inner, (VC "Ok" [(VC "()" [])]))
+| VC "Ok" [okval_18] => after_20 okval_18
+| VC "None" [] => (self, inner, (VC "None" []))
+| VC "Some" [okval_18] => after_20 okval_18
 | _ => (self, inner, VStuck)
 end in
 match v_15 with
 | VC c_ args_ =>
   if (c_ =? "Ok")%string then
     match args_ with
-    | [a_22] => let inner_23 := v_log "push_method" [(VN 0); (VC "AmqpConnection::CloseOk" [(VC "CloseOk" [])])] inner in
-let inner_24 := v_log "seal_writes" [] inner_23 in
-let self_25 := (VC "HandshakeState::ServerClosing" [a_22]) in
-(self_25, inner_24, (VC "Ok" [(VC "()" [])]))
+    | [a_23] => let inner_24 := v_log "push_method" [(VN 0); (VC "AmqpConnection::CloseOk" [(VC "CloseOk" [])])] inner in
+let inner_25 := v_log "seal_writes" [] inner_24 in
+let self_26 := (VC "HandshakeState::ServerClosing" [a_23]) in
+(self_26, inner_25, (VC "Ok" [(VC "()" [])]))
     | _ => rest_16 tt
     end
   else rest_16 tt
@@ -107,24 +110,30 @@ match scrut_3 with
 | VC c_ args_ =>
   if (c_ =? "HandshakeState::Tune")%string then
     match args_ with
-    | [a_26; a_27] => let tried_28 := (ext "Tune::try_from" [(VN 0); frame]) in
-match tried_28 with
-| VC "Err" [err_30] => (self, inner, (VC "Err" [err_30]))
-| VC "Ok" [okval_29] =>
-let v_31 := okval_29 in
-let tried_32 := (ext "make_tune_ok" [a_26; v_31]) in
-match tried_32 with
-| VC "Err" [err_34] => (self, inner, (VC "Err" [err_34]))
-| VC "Ok" [okval_33] =>
-let v_35 := okval_33 in
-let inner_36 := v_log "start_heartbeats" [(v_field "heartbeat" v_35)] inner in
-let inner_37 := v_log "push_method" [(VN 0); (VC "AmqpConnection::TuneOk" [v_35])] inner_36 in
-let v_38 := (ext "make_open" [a_26]) in
-let inner_39 := v_log "push_method" [(VN 0); (VC "AmqpConnection::Open" [v_38])] inner_37 in
-let self_40 := (VC "HandshakeState::Open" [v_35; a_27]) in
-(self_40, inner_39, (VC "Ok" [(VC "()" [])]))
+    | [a_27; a_28] => let tried_29 := (ext "Tune::try_from" [(VN 0); frame]) in
+let after_32 := fun okval_30 : val =>
+let v_33 := okval_30 in
+let tried_34 := (ext "make_tune_ok" [a_27; v_33]) in
+let after_37 := fun okval_35 : val =>
+let v_38 := okval_35 in
+let inner_39 := v_log "start_heartbeats" [(v_field "heartbeat" v_38)] inner in
+let inner_40 := v_log "push_method" [(VN 0); (VC "AmqpConnection::TuneOk" [v_38])] inner_39 in
+let v_41 := (ext "make_open" [a_27]) in
+let inner_42 := v_log "push_method" [(VN 0); (VC "AmqpConnection::Open" [v_41])] inner_40 in
+let self_43 := (VC "HandshakeState::Open" [v_38; a_28]) in
+(self_43, inner_42, (VC "Ok" [(VC "()" [])])) in
+match tried_34 with
+| VC "Err" [err_36] => (self, inner, (VC "Err" [err_36]))
+| VC "Ok" [okval_35] => after_37 okval_35
+| VC "None" [] => (self, inner, (VC "None" []))
+| VC "Some" [okval_35] => after_37 okval_35
 | _ => (self, inner, VStuck)
-end
+end in
+match tried_29 with
+| VC "Err" [err_31] => (self, inner, (VC "Err" [err_31]))
+| VC "Ok" [okval_30] => after_32 okval_30
+| VC "None" [] => (self, inner, (VC "None" []))
+| VC "Some" [okval_30] => after_32 okval_30
 | _ => (self, inner, VStuck)
 end
     | _ => next_6 tt
@@ -136,19 +145,19 @@ match scrut_3 with
 | VC c_ args_ =>
   if (c_ =? "HandshakeState::Secure")%string then
     match args_ with
-    | [a_41; a_42] => let v_43 := (ext "Secure::try_from" [(VN 0); frame]) in
-let rest_44 := fun _ : unit =>
-let self_45 := (VC "HandshakeState::Tune" [a_41; a_42]) in
-(gen_HandshakeState_process fuel_ self_45 inner frame) in
-match v_43 with
+    | [a_44; a_45] => let v_46 := (ext "Secure::try_from" [(VN 0); frame]) in
+let rest_47 := fun _ : unit =>
+let self_48 := (VC "HandshakeState::Tune" [a_44; a_45]) in
+(gen_HandshakeState_process fuel_ self_48 inner frame) in
+match v_46 with
 | VC c_ args_ =>
   if (c_ =? "Ok")%string then
     match args_ with
-    | [a_46] => (self, inner, (VC "Err" [VC "Error::SaslSecureNotSupported" []]))
-    | _ => rest_44 tt
+    | [a_49] => (self, inner, (VC "Err" [VC "Error::SaslSecureNotSupported" []]))
+    | _ => rest_47 tt
     end
-  else rest_44 tt
-| _ => rest_44 tt
+  else rest_47 tt
+| _ => rest_47 tt
 end
     | _ => next_5 tt
     end
@@ -159,30 +168,36 @@ match scrut_3 with
 | VC c_ args_ =>
   if (c_ =? "HandshakeState::Start")%string then
     match args_ with
-    | [a_47] => let tried_48 := (ext "Start::try_from" [(VN 0); frame]) in
-match tried_48 with
-| VC "Err" [err_50] => (self, inner, (VC "Err" [err_50]))
-| VC "Ok" [okval_49] =>
-let v_51 := okval_49 in
-let tried_52 := (ext "make_start_ok" [a_47; v_51]) in
-match tried_52 with
-| VC "Err" [err_54] => (self, inner, (VC "Err" [err_54]))
-| VC "Ok" [okval_53] =>
-let v_55 := okval_53 in
-match v_55 with
+    | [a_50] => let tried_51 := (ext "Start::try_from" [(VN 0); frame]) in
+let after_54 := fun okval_52 : val =>
+let v_55 := okval_52 in
+let tried_56 := (ext "make_start_ok" [a_50; v_55]) in
+let after_59 := fun okval_57 : val =>
+let v_60 := okval_57 in
+match v_60 with
 | VC c_ args_ =>
   if (c_ =? "tuple")%string then
     match args_ with
-    | [a_56; a_57] => let inner_58 := v_log "push_method" [(VN 0); (VC "AmqpConnection::StartOk" [a_56])] inner in
-let self_59 := (VC "HandshakeState::Secure" [a_47; a_57]) in
-(self_59, inner_58, (VC "Ok" [(VC "()" [])]))
+    | [a_61; a_62] => let inner_63 := v_log "push_method" [(VN 0); (VC "AmqpConnection::StartOk" [a_61])] inner in
+let self_64 := (VC "HandshakeState::Secure" [a_50; a_62]) in
+(self_64, inner_63, (VC "Ok" [(VC "()" [])]))
     | _ => (self, inner, VStuck)
     end
   else (self, inner, VStuck)
 | _ => (self, inner, VStuck)
-end
+end in
+match tried_56 with
+| VC "Err" [err_58] => (self, inner, (VC "Err" [err_58]))
+| VC "Ok" [okval_57] => after_59 okval_57
+| VC "None" [] => (self, inner, (VC "None" []))
+| VC "Some" [okval_57] => after_59 okval_57
 | _ => (self, inner, VStuck)
-end
+end in
+match tried_51 with
+| VC "Err" [err_53] => (self, inner, (VC "Err" [err_53]))
+| VC "Ok" [okval_52] => after_54 okval_52
+| VC "None" [] => (self, inner, (VC "None" []))
+| VC "Some" [okval_52] => after_54 okval_52
 | _ => (self, inner, VStuck)
 end
     | _ => next_4 tt
@@ -194,7 +209,7 @@ match v_1 with
 | VC c_ args_ =>
   if (c_ =? "AMQPFrame::Heartbeat")%string then
     match args_ with
-    | [a_60] => (if v_eqb a_60 (VN 0) then (self, inner, (VC "Ok" [(VC "()" [])])) else rest_2 tt)
+    | [a_65] => (if v_eqb a_65 (VN 0) then (self, inner, (VC "Ok" [(VC "()" [])])) else rest_2 tt)
     | _ => rest_2 tt
     end
   else rest_2 tt
